@@ -128,6 +128,24 @@ def scenarios():
     S.append(cli_scenario("evo_res --save_table", "res", lambda c: c["zips"] + ["--save_table", "t.csv"]))
     S.append(cli_scenario("evo_res --save_plot png", "res", lambda c: c["zips"] + ["--save_plot", "p.png"], plot=True))
     S.append(cli_scenario("evo_res --serialize_plot", "res", lambda c: c["zips"] + ["--serialize_plot", "s.pkl"], plot=True))
+    # the same outputs with further (legal, unrelated) options: none of them may switch the
+    # confirmation off
+    for extra in (["--ignore_title"], ["--use_filenames"], ["--merge"], ["--use_rel_time", "--ignore_title"]):
+        S.append(cli_scenario("evo_res --save_table " + " ".join(extra), "res",
+                              lambda c, extra=extra: c["zips"] + extra + ["--save_table", "t.csv"]))
+    S.append(cli_scenario("evo_res --save_plot png --ignore_title", "res",
+                          lambda c: c["zips"] + ["--ignore_title", "--save_plot", "p.png"], plot=True))
+    S.append(cli_scenario("evo_res --serialize_plot --ignore_title", "res",
+                          lambda c: c["zips"] + ["--ignore_title", "--serialize_plot", "s.pkl"], plot=True))
+    for tool in ("ape", "rpe"):
+        for extra in (["-a", "-s", "-v"], ["--align_origin", "--silent"], ["--project_to_plane", "xy", "--debug"]):
+            S.append(cli_scenario("evo_%s --save_results %s" % (tool, " ".join(extra)), tool,
+                                  lambda c, extra=extra: ["tum", ref(c), est(c)] + extra + ["--save_results", "r.zip"]))
+    for extra in (["--full_check"], ["-v", "--sync"], ["--silent", "-a"], ["--merge"]):
+        S.append(cli_scenario("evo_traj --save_as_tum " + " ".join(extra), "traj",
+                              lambda c, extra=extra: ["tum", est(c), est2(c), "--ref", ref(c)] + extra + ["--save_as_tum"]))
+    S.append(cli_scenario("evo_traj --save_table --full_check", "traj",
+                          lambda c: ["tum", est(c), est2(c), "--full_check", "--save_table", "t.csv"]))
     S.append(cli_scenario("evo_config generate -o", "config",
                           lambda c: ["generate", "--align", "--plot_mode", "xz", "-o", "cfg.json"],
                           confirm_switch=False))
